@@ -537,8 +537,14 @@ Type help or ? to list commands.
         tree.bind(self.eval_context)
         try:
             value = tree.eval()
-        except EvalError as e:
+        except (EvalError, InternalError) as e:
             print('Eval error:', e)
+            return
+        except OverflowError:
+            print('Eval error: Overflow')
+            return
+        except ZeroDivisionError:
+            print('Eval error: Division by zero')
             return
 
         print(value)
